@@ -9,6 +9,7 @@ import DimodProofs.Anneal
 import DimodProofs.AnnealDelta
 import DimodProofs.AnnealColor
 import DimodProofs.AnnealSweep
+import DimodProofs.EnumComposite
 
 /-! # C07 — samplers and composites report each row's true energy over the right variables
 
@@ -359,5 +360,93 @@ example : isingSA [(.str "a", -1), (.str "b", 0)] [(.str "a", .str "b", 2)] (som
 example : colorClasses [(.str "a", 0), (.str "b", 0), (.str "c", 0)] [(.str "a", .str "b", 1), (.str "b", .str "c", 1)]
     = [(0, [.str "a", .str "c"]), (1, [.str "b"])] := by decide +kernel
 example : randomRows false 2 2 (fun i => if i = 1 then 1 else 0) = [[0, 1], [0, 0]] := by decide +kernel
+
+/-! ## round 7: the remaining branches of the polynomial composites (`DimodModel/EnumComposite.lean`) -/
+
+/-- **PolyScaleComposite with `scalar=None`** (`BinaryPolynomial.normalize` with `bias_range` / `poly_range` as numbers or
+    pairs and `ignored_terms`, recovery of the scalar from the first non-zero non-ignored term, division or recomputation
+    of the energies — all as coded), for every child whose rows carry the energy of the polynomial it was given and
+    every polynomial (a dict: distinct keys): the call is refused (`ZeroDivisionError`) exactly when a range end is 0;
+    otherwise the child was given a polynomial with the same terms (keys), its rows come back with their columns
+    untouched, and every returned row carries the energy of the SUBMITTED polynomial. -/
+theorem polyscale_normalize (child : Poly → List Row) (p : Poly) (hk : (p.map (·.1)).Nodup)
+    (hchild : ∀ q, ∀ r ∈ child q, r.energy = polyEnergy r.val q)
+    (br : RangeArg) (pr : Option RangeArg) (ign : List (List Label)) :
+    (polyNormalizeSample child p br pr ign = none ↔
+      ((rangeEnds br pr).1.1 = 0 ∨ (rangeEnds br pr).1.2 = 0 ∨ (rangeEnds br pr).2.1 = 0 ∨ (rangeEnds br pr).2.2 = 0)) ∧
+    ∀ out, polyNormalizeSample child p br pr ign = some out →
+      (∃ scaled, scaled.map (·.1) = p.map (·.1) ∧ out.map (·.x) = (child scaled).map (·.x)) ∧
+      ∀ r ∈ out, r.energy = polyEnergy r.val p := by
+  refine ⟨(polyNormalizeSample_none_iff child p br pr ign).trans (polyNormalize_none_iff br pr ign p), fun out h => ⟨?_, ?_⟩⟩
+  · obtain ⟨scaled, h1, h2⟩ := polyNormalizeSample_columns child p br pr ign out h
+    exact ⟨scaled, polyNormalize_keys br pr ign p scaled h1, h2⟩
+  · exact polyNormalizeSample_energy child p hk hchild br pr ign out h
+
+/-- **PolyScaleComposite.sample_poly, both ways in** (`scalar` given and non-zero, or `None` → normalisation): every
+    returned row carries the energy of the submitted polynomial -/
+theorem polyscale_composite (child : Poly → List Row) (p : Poly) (hk : (p.map (·.1)).Nodup)
+    (hchild : ∀ q, ∀ r ∈ child q, r.energy = polyEnergy r.val q)
+    (scalar : Option Rat) (hs : scalar ≠ some 0) (br : RangeArg) (pr : Option RangeArg) (ign : List (List Label)) (out : List Row)
+    (h : polyScaleComposite child p scalar br pr ign = some out) : ∀ r ∈ out, r.energy = polyEnergy r.val p := by
+  cases scalar with
+  | none => exact polyNormalizeSample_energy child p hk hchild br pr ign out h
+  | some s =>
+    have hs0 : s ≠ 0 := fun e => hs (by rw [e])
+    simp only [polyScaleComposite, Option.some.injEq] at h
+    subst h
+    exact polyscale_energy child p s hs0 ign hchild
+
+/-- **PolyFixedVariableComposite.sample_poly, every branch as coded** (`fixed_variables=None`; a non-empty child answer →
+    `append_variables`; an empty answer with no free variable left → the one row `from_samples_bqm(fixed, poly)`; an empty
+    answer otherwise → no rows): every returned row carries the energy of the submitted polynomial and holds every fixed
+    value under its own label.  Terms are sets, the polynomial is a dict (one constant term), the child does not return a
+    fixed variable (it is not in the polynomial the child gets). -/
+theorem polyfixed_composite (child : Poly → List Row) (p : Poly) (fixed : Option (List (Label × Rat)))
+    (hp : ∀ t ∈ p, t.1.Nodup) (hc : OneConst p)
+    (hchild : ∀ q, ∀ r ∈ child q, r.energy = polyEnergy r.val q)
+    (hdisj : ∀ fx, fixed = some fx → ∀ q, ∀ r ∈ child q, ∀ f ∈ fx, r.x.find? (fun e => e.1 = f.1) = none) :
+    ∀ r ∈ polyFixedFull child p fixed,
+      r.energy = polyEnergy r.val p ∧
+      ∀ fx, fixed = some fx → ∀ l e, fx.find? (fun p => p.1 = l) = some e → r.val l = e.2 :=
+  polyFixedFull_spec child p fixed hp hc hchild hdisj
+
+/-- … and the number of rows of each branch: the child's rows, one for one; for an empty child answer one row iff
+    something is fixed and no variable is left, none otherwise -/
+theorem polyfixed_composite_rows (child : Poly → List Row) (p : Poly) (fx : List (Label × Rat)) :
+    (polyFixedFull child p none = child p) ∧
+    ((child (fixVariables true p fx)).length ≠ 0 →
+      (polyFixedFull child p (some fx)).length = (child (fixVariables true p fx)).length) ∧
+    ((child (fixVariables true p fx)).length = 0 →
+      (polyFixedFull child p (some fx)).length = if !fx.isEmpty && polyNoVars (fixVariables true p fx) then 1 else 0) :=
+  polyFixedFull_length child p fx
+
+/-- `TruncateComposite(child, n)` / `PolyTruncateComposite(child, n)`: `n < 1` is refused, otherwise `sample` is
+    `truncateComposite` (theorem `truncate_composite`) -/
+theorem truncate_init (n : Int) (b agg : Bool) (rows : List ORow) :
+    (n < 1 → truncateInit n b agg rows = .error ()) ∧
+    (1 ≤ n → truncateInit n b agg rows = .ok (truncateComposite n.toNat b agg rows)) :=
+  truncateInit_spec n b agg rows
+
+/-! ### non-vacuity of the round-7 statements -/
+
+/-- a child that answers every polynomial with the one row `a = 1, b = -1` and that polynomial's energy of it -/
+def demoChild : Poly → List Row := fun q => [⟨[(.str "a", 1), (.str "b", -1)], polyEnergy (Row.val ⟨[(.str "a", 1), (.str "b", -1)], 0⟩) q⟩]
+
+example : ∀ q, ∀ r ∈ demoChild q, r.energy = polyEnergy r.val q := by
+  intro q r hr; simp only [demoChild, List.mem_singleton] at hr; subst hr; rfl
+example : (([([.str "a"], 4), ([.str "a", .str "b"], -2), ([], 3)] : Poly).map (·.1)).Nodup := by decide +kernel
+/-- normalisation to `bias_range = 1`: `inv_scalar = 4`, the child sees `a - b·a/2 + 3/4` (energy 9/4), the composite
+    reports 9 = 4 + 2 + 3 -/
+example : (polyNormalizeSample demoChild [([.str "a"], 4), ([.str "a", .str "b"], -2), ([], 3)] (.num 1) none []).map
+      (·.map fun r => (r.x, r.energy)) = some [([(.str "a", 1), (.str "b", -1)], 9)] := by decide +kernel
+/-- separate ranges: linear 4/2 = 2, higher-order |-2|/(1/2) = 4 → `inv_scalar = 4` -/
+example : polyNormalize (.num 2) (some (.pair (-1/2) 1)) [] [([.str "a"], 4), ([.str "a", .str "b"], -2)]
+    = some [([.str "a"], 1), ([.str "a", .str "b"], -1/2)] := by decide +kernel
+example : (polyNormalizeSample demoChild [([.str "a"], 4)] (.num 0) none []).isNone = true := by decide +kernel
+/-- everything fixed and a child without rows: the one row of the fixed values, with the polynomial's energy -/
+example : (polyFixedFull (fun _ => []) [([.str "a"], 4), ([.str "a", .str "b"], -2), ([], 3)] (some [(.str "a", 1), (.str "b", -1)])).map
+      (fun r => (r.x, r.energy)) = [([(.str "a", 1), (.str "b", -1)], 9)] := by decide +kernel
+example : (polyFixedFull (fun _ => []) [([.str "a"], 4), ([.str "a", .str "b"], -2)] (some [(.str "a", 1)])).length = 0 := by decide +kernel
+example : (match truncateInit 0 true false [] with | .error _ => true | .ok _ => false) = true := by decide +kernel
 
 end C07
